@@ -24,6 +24,7 @@ Definition p_not (a : pyv) : pyv := match p_truth a with Some b => PBool (negb b
 
 Definition p_is_none (v : pyv) : pyv := match v with PNone => PBool true | PErr => PErr | _ => PBool false end.
 Definition p_is_not_none (v : pyv) : pyv := match v with PNone => PBool false | PErr => PErr | _ => PBool true end.
+Definition p_is_false (v : pyv) : pyv := match v with PBool false => PBool true | PErr => PErr | _ => PBool false end.      (* x is False *)
 Definition p_is_true (v : pyv) : pyv := match v with PBool true => PBool true | PErr => PErr | _ => PBool false end.      (* x is True *)
 
 (* bool is a subclass of int in Python: True == 1 *)
